@@ -23,15 +23,24 @@ def isProj : Phase SP DV → Bool
   | .proj _ => true
   | _ => false
 
-def docHead : List (Op SP DV) → Bool
+/-- the operation in progress loads the document (`doc[k] = x`, `doc()`) -/
+def loadHead : List (Op SP DV) → Bool
   | .docSet _ _ _ :: _ => true
   | .docGet _ :: _ => true
   | _ => false
 
-def wantsDoc : Phase SP DV → Bool
-  | .lite _ => true
-  | .dload _ => true
+/-- the operation in progress touches the document (also `job.doc = d`, which does not load) -/
+def docHead : List (Op SP DV) → Bool
+  | .docSet _ _ _ :: _ => true
+  | .docGet _ :: _ => true
+  | .docAssign _ _ :: _ => true
   | _ => false
+
+/-- what the program counter needs to know about the operation in progress -/
+def headFits : Phase SP DV → List (Op SP DV) → Bool
+  | .lite _, s => docHead s
+  | .dload _, s => loadHead s
+  | _, _ => true
 
 def tmpPhase (i : JobId) (k : Kind) : Phase SP DV → Prop
   | .save .write j k' _ => j = i ∧ k' = k
@@ -45,7 +54,7 @@ structure AInv (hash : SP → JobId) (fs : FS SP DV) (a : Nat) (st : AState SP D
   ws : isProj st.phase = false → IsDir fs .ws
   phase : PhaseInv hash fs a st.phase
   own : ∀ i k, fs.get (.tmp i k a) ≠ none → tmpPhase i k st.phase
-  head : wantsDoc st.phase = true → docHead st.script = true
+  head : headFits st.phase st.script = true
 
 /-- an actor's invariant only speaks about things other actors never destroy -/
 theorem AInv.stable {fs fs' : FS SP DV} {a b : Nat} {st : AState SP DV} (hab : a ≠ b)
@@ -81,7 +90,7 @@ theorem AInv.noTmp {fs : FS SP DV} {a : Nat} {st : AState SP DV} (h : AInv hash 
 theorem ainv_of_noTmp {fs : FS SP DV} {a : Nat} {st : AState SP DV}
     (h1 : st.failed = none) (h2 : isProj st.phase = false → IsDir fs .ws)
     (h3 : PhaseInv hash fs a st.phase) (h4 : NoTmp fs a)
-    (h5 : wantsDoc st.phase = true → docHead st.script = true) : AInv hash fs a st :=
+    (h5 : headFits st.phase st.script = true) : AInv hash fs a st :=
   ⟨h1, h2, h3, fun i k hne => absurd (h4 i k) hne, h5⟩
 
 theorem ainv_finish {fs : FS SP DV} {a : Nat} {st : AState SP DV}
@@ -89,9 +98,9 @@ theorem ainv_finish {fs : FS SP DV} {a : Nat} {st : AState SP DV}
   apply ainv_of_noTmp _ (fun _ => h2) _ h4
   · simp only [finishOp, startNext]
     split
-    · simp [wantsDoc]
+    · simp [headFits]
     · rename_i op rest heq
-      cases op <;> simp_all [firstPhase, wantsDoc, docHead]
+      cases op <;> simp_all [firstPhase, headFits, docHead]
   · simp only [finishOp, startNext]; split <;> exact h1
   · simp only [finishOp, startNext]
     split
@@ -101,12 +110,33 @@ theorem ainv_finish {fs : FS SP DV} {a : Nat} {st : AState SP DV}
 
 theorem ainv_afterInit {fs : FS SP DV} {a : Nat} {st : AState SP DV} {v : SP}
     (h1 : st.failed = none) (h2 : IsDir fs .ws) (h4 : NoTmp fs a)
-    (hd : IsDir fs (.jobdir (hash v))) : AInv hash fs a (afterInit st v) := by
+    (hd : IsDir fs (.jobdir (hash v))) : AInv hash fs a (afterInit hash st v) := by
   unfold afterInit
   split
-  · exact ainv_of_noTmp h1 (fun _ => h2) hd h4 (fun _ => by simp_all [AState.goto, docHead])
-  · exact ainv_of_noTmp h1 (fun _ => h2) hd h4 (fun _ => by simp_all [AState.goto, docHead])
+  · exact ainv_of_noTmp h1 (fun _ => h2) hd h4 (by simp_all [AState.goto, headFits, loadHead])
+  · exact ainv_of_noTmp h1 (fun _ => h2) hd h4 (by simp_all [AState.goto, headFits, loadHead])
+  · exact ainv_of_noTmp h1 (fun _ => h2) ⟨hd, trivial⟩ h4 (by simp [AState.goto, headFits])
   · exact ainv_finish h1 h2 h4
+
+/-- the directory exists: `doc[k] = x` / `doc()` go on to load, `job.doc = d` starts its save -/
+theorem ainv_docStart {fs : FS SP DV} {a : Nat} {st : AState SP DV} {v : SP}
+    (h1 : st.failed = none) (h2 : IsDir fs .ws) (h4 : NoTmp fs a)
+    (hd : IsDir fs (.jobdir (hash v))) (hh : docHead st.script = true) :
+    AInv hash fs a (docStart hash st v) := by
+  unfold docStart
+  split
+  · exact ainv_of_noTmp h1 (fun _ => h2) ⟨hd, trivial⟩ h4 (by simp [AState.goto, headFits])
+  · rename_i hna
+    refine ainv_of_noTmp h1 (fun _ => h2) hd h4 ?_
+    simp only [AState.goto, headFits]
+    cases hs : st.script with
+    | nil => simp [hs, docHead] at hh
+    | cons op r =>
+      cases op with
+      | docAssign w d => exact absurd hs (hna w d r)
+      | docSet w k x => rfl
+      | docGet w => rfl
+      | _ => simp [hs, docHead] at hh
 
 def StepOk (hash : SP → JobId) (fs : FS SP DV) (a : Nat) (st : AState SP DV) (ins : Instr SP DV) : Prop :=
   FsInv hash (exec fs ins).1 ∧ Guar a fs (exec fs ins).1 ∧
@@ -136,7 +166,7 @@ theorem step_proj {fs : FS SP DV} {a : Nat} {st : AState SP DV} {n : ProjPc} {in
   have hnt : NoTmp fs a := hinv.noTmp (by intro i k; simp [hph, tmpPhase])
   have hf := hinv.noFail
   have hgo : ∀ m, PhaseInv hash fs a (.proj m) → AInv hash fs a (st.goto (.proj m)) := fun m hm =>
-    ainv_of_noTmp hf (by simp [AState.goto, isProj]) hm hnt (by simp [AState.goto, wantsDoc])
+    ainv_of_noTmp hf (by simp [AState.goto, isProj]) hm hnt (by simp [AState.goto, headFits])
   unfold StepOk
   cases n
   · -- isdir1
@@ -177,18 +207,18 @@ theorem step_lite {fs : FS SP DV} {a : Nat} {st : AState SP DV} {v : SP} {ins : 
   have hnt : NoTmp fs a := hinv.noTmp (by intro i k; simp [hph, tmpPhase])
   have hf := hinv.noFail
   have hws : IsDir fs .ws := hinv.ws (by simp [hph, isProj])
-  have hhead : docHead st.script = true := hinv.head (by simp [hph, wantsDoc])
+  have hhead : docHead st.script = true := by simpa [hph, headFits] using hinv.head
   unfold StepOk
   simp only [next, hph, Option.some.injEq] at hn; subst hn
   by_cases hd : IsDir fs (.jobdir (hash v))
   · rw [exec_isdir_T hd]
     refine ⟨hfs, Guar.refl _ _, ?_⟩
     simp only [resume, hph]
-    exact ainv_of_noTmp hf (fun _ => hws) hd hnt (fun _ => hhead)
+    exact ainv_docStart hf hws hnt hd hhead
   · rw [exec_isdir_F hd]
     refine ⟨hfs, Guar.refl _ _, ?_⟩
     simp only [resume, hph]
-    exact ainv_of_noTmp hf (fun _ => hws) trivial hnt (by simp [AState.goto, wantsDoc])
+    exact ainv_of_noTmp hf (fun _ => hws) trivial hnt (by simp [AState.goto, headFits])
 
 theorem parent_dir {fs : FS SP DV} (hfs : FsInv hash fs) {p q : Path} {n : Node SP DV}
     (h : fs.get p = some n) (hq : p.parent = some q) : IsDir fs q :=
@@ -200,7 +230,7 @@ theorem step_ini {fs : FS SP DV} {a : Nat} {st : AState SP DV} {n : IniPc} {v : 
   have hnt : NoTmp fs a := hinv.noTmp (by intro i k; simp [hph, tmpPhase])
   have hf := hinv.noFail
   have hws : IsDir fs .ws := hinv.ws (by simp [hph, isProj])
-  have hgo : ∀ ph, PhaseInv hash fs a ph → wantsDoc ph = false → AInv hash fs a (st.goto ph) :=
+  have hgo : ∀ ph, PhaseInv hash fs a ph → (∀ s, headFits ph s = true) → AInv hash fs a (st.goto ph) :=
     fun ph hm hw => ainv_of_noTmp hf (fun _ => hws) hm hnt (by simp [AState.goto, hw])
   -- reading the state point file: complete and hashing to the directory, or absent
   have hload : ∀ c, fs.get (.file (hash v) .sp) = some (.file c) →
@@ -224,7 +254,7 @@ theorem step_ini {fs : FS SP DV} {a : Nat} {st : AState SP DV} {n : IniPc} {v : 
     cases hg : fs.get (.file (hash v) .sp) with
     | none =>
       rw [exec_read_none hg]
-      exact ⟨hfs, Guar.refl _ _, by simpa only [resume, hph, resumeIni] using hgo (.ini .isdir v) trivial rfl⟩
+      exact ⟨hfs, Guar.refl _ _, by simpa only [resume, hph, resumeIni] using hgo (.ini .isdir v) trivial (fun _ => rfl)⟩
     | some nd =>
       obtain ⟨c, rfl, _⟩ := hfs.fileT hg
       rw [exec_read_file hg]
@@ -233,19 +263,19 @@ theorem step_ini {fs : FS SP DV} {a : Nat} {st : AState SP DV} {n : IniPc} {v : 
     simp only [next, hph, Option.some.injEq] at hn; subst hn
     by_cases hd : IsDir fs (.jobdir (hash v))
     · rw [exec_isdir_T hd]
-      exact ⟨hfs, Guar.refl _ _, by simpa only [resume, hph, resumeIni] using hgo (.ini .isfile v) hd rfl⟩
+      exact ⟨hfs, Guar.refl _ _, by simpa only [resume, hph, resumeIni] using hgo (.ini .isfile v) hd (fun _ => rfl)⟩
     · rw [exec_isdir_F hd]
-      exact ⟨hfs, Guar.refl _ _, by simpa only [resume, hph, resumeIni] using hgo (.ini .existsWs v) trivial rfl⟩
+      exact ⟨hfs, Guar.refl _ _, by simpa only [resume, hph, resumeIni] using hgo (.ini .existsWs v) trivial (fun _ => rfl)⟩
   · -- existsWs
     simp only [next, hph, Option.some.injEq] at hn; subst hn
     rw [exec_exists_T hws]
-    exact ⟨hfs, Guar.refl _ _, by simpa only [resume, hph, resumeIni] using hgo (.ini .mkdir v) trivial rfl⟩
+    exact ⟨hfs, Guar.refl _ _, by simpa only [resume, hph, resumeIni] using hgo (.ini .mkdir v) trivial (fun _ => rfl)⟩
   · -- mkdir
     simp only [next, hph, Option.some.injEq] at hn; subst hn
     cases hg : fs.get (.jobdir (hash v)) with
     | some nd =>
       rw [exec_mkdir_some hg]
-      exact ⟨hfs, Guar.refl _ _, by simpa only [resume, hph, resumeIni] using (hgo (.ini .isdir2 v) (jd_node hfs hg) rfl)⟩
+      exact ⟨hfs, Guar.refl _ _, by simpa only [resume, hph, resumeIni] using (hgo (.ini .isdir2 v) (jd_node hfs hg) (fun _ => rfl))⟩
     | none =>
       have hp : parentOk fs (.jobdir (hash v)) = true := by
         rw [parentOk_iff]; intro q hq; cases hq; exact hws
@@ -255,20 +285,20 @@ theorem step_ini {fs : FS SP DV} {a : Nat} {st : AState SP DV} {n : IniPc} {v : 
       refine ⟨fsinv_set hfs hok hp, hG, ?_⟩
       simp only [resume, hph, resumeIni]
       exact ainv_of_noTmp hf (fun _ => hG.dirs _ hws) (by simp [AState.goto, PhaseInv, IsDir, get_set])
-        (noTmp_set hnt _ (by intro i k b h; cases h)) (by simp [AState.goto, wantsDoc])
+        (noTmp_set hnt _ (by intro i k b h; cases h)) (by simp [AState.goto, headFits])
   · -- isdir2
     simp only [next, hph, Option.some.injEq] at hn; subst hn
     have hd : IsDir fs (.jobdir (hash v)) := by simpa [hph, PhaseInv] using hinv.phase
     rw [exec_isdir_T hd]
-    exact ⟨hfs, Guar.refl _ _, by simpa only [resume, hph, resumeIni] using hgo (.ini .isfile v) hd rfl⟩
+    exact ⟨hfs, Guar.refl _ _, by simpa only [resume, hph, resumeIni] using hgo (.ini .isfile v) hd (fun _ => rfl)⟩
   · -- isfile
     simp only [next, hph, Option.some.injEq] at hn; subst hn
     have hd : IsDir fs (.jobdir (hash v)) := by simpa [hph, PhaseInv] using hinv.phase
     by_cases hfile : IsFile fs (.file (hash v) .sp)
     · rw [exec_isfile_T hfile]
-      exact ⟨hfs, Guar.refl _ _, by simpa only [resume, hph, resumeIni] using hgo (.ini .load2 v) hfile rfl⟩
+      exact ⟨hfs, Guar.refl _ _, by simpa only [resume, hph, resumeIni] using hgo (.ini .load2 v) hfile (fun _ => rfl)⟩
     · rw [exec_isfile_F hfile]
-      exact ⟨hfs, Guar.refl _ _, by simpa only [resume, hph, resumeIni] using (hgo (.save .openw (hash v) .sp (.spc v)) ⟨hd, rfl⟩ rfl)⟩
+      exact ⟨hfs, Guar.refl _ _, by simpa only [resume, hph, resumeIni] using (hgo (.save .openw (hash v) .sp (.spc v)) ⟨hd, rfl⟩ (fun _ => rfl))⟩
   · -- load2
     simp only [next, hph, Option.some.injEq] at hn; subst hn
     obtain ⟨c, hc⟩ : IsFile fs (.file (hash v) .sp) := by simpa [hph, PhaseInv] using hinv.phase
@@ -310,7 +340,7 @@ theorem step_save {fs : FS SP DV} {a : Nat} {st : AState SP DV} {n : SavePc} {i 
     have hG := guar_set hfs a hok (by intro _ _ b h; cases h; rfl)
     refine ⟨fsinv_set hfs hok hp, hG, ?_⟩
     simp only [resume, hph, resumeSave]
-    refine ⟨hf, fun _ => hG.dirs _ hws, ?_, ?_, by simp [AState.goto, wantsDoc]⟩
+    refine ⟨hf, fun _ => hG.dirs _ hws, ?_, ?_, by simp [AState.goto, headFits]⟩
     · exact ⟨⟨.torn, by simp [get_set]⟩, hgood⟩
     · intro j k' hne
       simp only [AState.goto, tmpPhase]
@@ -331,7 +361,7 @@ theorem step_save {fs : FS SP DV} {a : Nat} {st : AState SP DV} {n : SavePc} {i 
     have hG := guar_set hfs a hok (by intro _ _ b h; cases h; rfl)
     refine ⟨fsinv_set hfs hok hp, hG, ?_⟩
     simp only [resume, hph, resumeSave]
-    refine ⟨hf, fun _ => hG.dirs _ hws, ?_, ?_, by simp [AState.goto, wantsDoc]⟩
+    refine ⟨hf, fun _ => hG.dirs _ hws, ?_, ?_, by simp [AState.goto, headFits]⟩
     · exact ⟨by simp [get_set], hgood⟩
     · intro j k' hne
       simp only [AState.goto, tmpPhase]
@@ -348,7 +378,7 @@ theorem step_save {fs : FS SP DV} {a : Nat} {st : AState SP DV} {n : SavePc} {i 
     rw [exec_close]
     refine ⟨hfs, Guar.refl _ _, ?_⟩
     simp only [resume, hph, resumeSave]
-    refine ⟨hf, fun _ => hws, hpi, ?_, by simp [AState.goto, wantsDoc]⟩
+    refine ⟨hf, fun _ => hws, hpi, ?_, by simp [AState.goto, headFits]⟩
     intro j k' hne
     have := hinv.own j k' hne
     rw [hph] at this
@@ -386,7 +416,7 @@ theorem step_save {fs : FS SP DV} {a : Nat} {st : AState SP DV} {n : SavePc} {i 
         simp only [GoodC] at hgood
         subst hgood
         exact ainv_of_noTmp hf (fun _ => hG.dirs _ hws) ⟨.spc v, by simp [get_set]⟩ hnt
-          (by simp [AState.goto, wantsDoc])
+          (by simp [AState.goto, headFits])
       | torn => simp [GoodC] at hgood
       | docc d => simp [GoodC] at hgood
     | doc => exact ainv_finish hf (hG.dirs _ hws) hnt
@@ -397,22 +427,22 @@ theorem step_dload {fs : FS SP DV} {a : Nat} {st : AState SP DV} {v : SP} {ins :
   have hnt : NoTmp fs a := hinv.noTmp (by intro i k; simp [hph, tmpPhase])
   have hf := hinv.noFail
   have hws : IsDir fs .ws := hinv.ws (by simp [hph, isProj])
-  have hhead : docHead st.script = true := hinv.head (by simp [hph, wantsDoc])
+  have hhead : loadHead st.script = true := by simpa [hph, headFits] using hinv.head
   have hd : IsDir fs (.jobdir (hash v)) := by simpa [hph, PhaseInv] using hinv.phase
   have hres : ∀ d, AInv hash fs a (resumeDload hash st v d) := by
     intro d
     unfold resumeDload
     split
-    · exact ainv_of_noTmp hf (fun _ => hws) ⟨hd, trivial⟩ hnt (by simp [AState.goto, wantsDoc])
+    · exact ainv_of_noTmp hf (fun _ => hws) ⟨hd, trivial⟩ hnt (by simp [AState.goto, headFits])
     · exact ainv_finish hf hws hnt
     · rename_i h1 h2
       cases hs : st.script with
-      | nil => simp [hs, docHead] at hhead
+      | nil => simp [hs, loadHead] at hhead
       | cons op rest =>
         cases op with
         | docSet w k x => exact absurd hs (h1 w k x rest)
         | docGet w => exact absurd hs (h2 w rest)
-        | _ => simp [hs, docHead] at hhead
+        | _ => simp [hs, loadHead] at hhead
   unfold StepOk
   simp only [next, hph, Option.some.injEq] at hn; subst hn
   cases hg : fs.get (.file (hash v) .doc) with
@@ -528,7 +558,7 @@ theorem initial_inv {fs : FS SP DV} (hfs : FsInv hash fs) (hnt : ∀ i k a, fs.g
     simp only [hs, Option.map_some, Option.some.injEq] at hst
     subst hst
     exact ainv_of_noTmp rfl (by simp [AState.start, isProj]) trivial (fun i k => hnt i k a)
-      (by simp [AState.start, wantsDoc])
+      (by simp [AState.start, headFits])
 
 /-- published files and directories are never removed, by anybody, in any schedule -/
 theorem run_monotone {s : Sys SP DV} (h : SysInv hash s) (sched : List Nat) :
